@@ -19,6 +19,10 @@
     ringorder <n> {<bidx>}*            -> ok | bad    adopt the observed order of the reject ring (must be a permutation)
     setorder <n> {<bidx>}*             -> ok | bad    adopt the observed sorted list (must be a parents-first permutation)
     rbf <npk> {<fee> <weight> <k> {<bidx>}*}*  -> <bidx>* | bad-pkg <i>   GetSortedMempoolRBF's listing for the observed FeePackages
+    consts                             -> the constants the model copies from the Go source, for the harness to compare with
+                                          the package's own: COINBASE_MATURITY SORT_START_INDEX stepFor(0) stepFor(250000) and
+                                          the reject reasons NOT_PENDING TOO_BIG OVERSPEND BAD_INPUT SCRIPT_FAIL NO_TXOU BAD_PARENT
+                                          LOW_FEE NOT_MINED CB_INMATURE RBF_LOWFEE RBF_FINAL RBF_100 REPLACED
     dump                               -> P … | S … | R … | W … | X … | L … | T … | E … | G … | K …
                                           (K = `dirty` or the sorted list as <bidx>:<SortRank>; G = the ghost flag rankWrap)
 -/
@@ -194,6 +198,9 @@ def step (o : OSt) (toks : List String) : OSt × String :=
       | some i => (o, s!"bad-pkg {i}")
       | none => (o, " ".intercalate ((sortedRBF K s pks).map hex16))
     | _ => bad
+  | ["consts"] => (o, " ".intercalate ([COINBASE_MATURITY, SORT_START, stepFor 0, stepFor 250000, R_NOT_PENDING, R_TOO_BIG,
+      R_OVERSPEND, R_BAD_INPUT, R_SCRIPT_FAIL, R_NO_TXOU, R_BAD_PARENT, R_LOW_FEE, R_NOT_MINED, R_CB_INMATURE, R_RBF_LOWFEE,
+      R_RBF_FINAL, R_RBF_100, R_REPLACED].map toString))
   | ["dump"] => (o, dump s)
   | _ => bad
 
